@@ -5,7 +5,7 @@
 # 2. in /repo: apply, run the named checks (default: the property's own), undo
 id=$1; v=$2; democmd=$3; shift 3
 checks=${@:-$id}
-wt=/tmp/wt/$id; seed=$wt/_seed/$v
+wt=${WTBASE:-/tmp/wt}/$id; seed=$wt/_seed/$v
 export GOFLAGS=-mod=mod GOPROXY=off
 cd $wt || exit 2
 git checkout -q -- . 
@@ -15,14 +15,14 @@ stage() { # copy the demo into place
 unstage() { rm -f $wt/zz_seed_demo_test.go; }
 stage
 echo "--- demo on the unchanged worktree (must pass)"
-( eval "$democmd" ) > /tmp/wt/$id.$v.clean.log 2>&1; rc_clean=$?
+( eval "$democmd" ) > /tmp/$id.$v.clean.log 2>&1; rc_clean=$?
 echo "rc=$rc_clean"
 git apply $seed/patch.diff || { echo "patch does not apply"; unstage; exit 2; }
 echo "--- with the change: build, pinned tests, demo (must fail)"
 go build . ./markdown ./cmd/gtree && go build -tags tinywasm . && go build -tags verif . ; rc_build=$?
 rm -f gtree
 /verif/tools/baseline.sh $wt | tail -1; rc_base=${PIPESTATUS[0]}
-( eval "$democmd" ) > /tmp/wt/$id.$v.seeded.log 2>&1; rc_seeded=$?
+( eval "$democmd" ) > /tmp/$id.$v.seeded.log 2>&1; rc_seeded=$?
 echo "build=$rc_build baseline=$rc_base demo rc=$rc_seeded"
 git checkout -q -- .; unstage
 git status --porcelain --untracked-files=no
